@@ -29,12 +29,17 @@ where
     }
 
     fn map2_to_curve(p1: &PtT::Base, p2: &PtT::Base) -> PtT {
+        // Map each SSWU image to the target curve *before* adding: the isogenous curve has a
+        // non-zero `a` coefficient, so `add_assign` (whose equal-operands case uses the a = 0
+        // doubling formula) is only valid on the target curve (cf. RFC 9380 section 3).
         let mut p = {
             let mut tmp = PtT::osswu_map(p1);
-            tmp.add_assign(&PtT::osswu_map(p2));
+            tmp.isogeny_map();
+            let mut tmp2 = PtT::osswu_map(p2);
+            tmp2.isogeny_map();
+            tmp.add_assign(&tmp2);
             tmp
         };
-        p.isogeny_map();
         p.clear_h();
         debug_assert!(p.into_affine().in_subgroup());
         p
